@@ -2,6 +2,7 @@
 # run_seeded.sh [seed-id ...]: applies each seeded defect to /repo, runs the quick check of its
 # property, records whether a VIOLATION is reported, and undoes the change straight afterwards.
 cd /verif
+if [ -n "$(git -C /repo status --porcelain)" ]; then echo "refusing to run: /repo has uncommitted changes (they would be lost when the seed is undone)"; exit 2; fi
 ids="$@"; [ -z "$ids" ] && ids=$(ls seeded)
 for id in $ids; do
   prop=$(python3 -c "import json;print(json.load(open('seeded/$id/meta.json'))['property'])")
